@@ -22,6 +22,7 @@ import CookModel.Lemmas.UnitKeysBlank
 import CookModel.Lemmas.NoFence
 import CookModel.Lemmas.InlineScanPrefix
 import CookModel.Lemmas.InlineBlank
+import CookModel.Lemmas.BlankBraces
 /-
   C17  Line endings, comments and blank space do not change the recipe.
 
@@ -1513,7 +1514,8 @@ theorem C17_clean_line_end_lf_real (o : Nat) (a : List Char) (h : CleanEndLF (le
   the outer `trim()`, step / paragraph text by `text()`, equal values / modifiers / reference data,
   diagnostics of the same kind); `FillerIn lF l`, `CompFiller cF c`, `TimerFiller`, `QtyFiller` — a
   text leaf / component / timer / quantity of the round-trip grammar with block comments and blanks
-  inserted behind a blank of its name, alias, note, unit; `ParaIns` — filler inserted in a line of a
+  inserted behind a blank of its name, alias, note, unit (since wave 10 also of its TEXT VALUE, `ValFiller`);
+  `ParaIns` — filler inserted in a line of a
   `>` paragraph; `StrLine` — a complete source line. -/
 
 /-- **`is_text_empty` of an assembled run** is decided by the characters its tokens contribute to
@@ -1608,7 +1610,8 @@ theorem C17_events_loose_same_recipe_modes_off {α : Type} [Arith α] (ws : Char
     comment shows nothing between two blanks that `text_trimmed` collapses).
     NOT covered: a comment directly in front of the unit of an ADVANCED_UNITS quantity written without
     `%` (`{1 [- c -]kg}`) — there the real parser changes its reading (finding O5, repaired on branch
-    w5advfix); `QtyFiller` only inserts into units written with `%`.
+    w5advfix); `QtyFiller` only inserts into units written with `%` and (since wave 10) into text values,
+    which under ADVANCED_UNITS without `%` start with a word (`advSafe`) so that the advanced form declines.
     The recipe level (step loop, block, document, analysis) is `C17_filler_in_component_bodies_same_recipe`. -/
 theorem C17_ingredient_filler_in_body {α : Type} [Arith α] (cF c : AComp) (hF : CompFiller cF c) (p' p : CPad) (s' s : BP α)
     (hcs : s'.cs = s.cs) (hext : s'.ext = s.ext) (hsp : s.cs.uws ' ' = true)
@@ -1650,7 +1653,9 @@ theorem C17_timer_filler_in_body {α : Type} [Arith α] (cF c : ATimer) (hF : Ti
 
 /-- **`parse_quantity` with filler inside the unit** (`{1%big [- c -] cup}`): the same value, the same
     lock, the unit with the same `text_trimmed()`, no diagnostic, the outer parser untouched — under
-    both settings of ADVANCED_UNITS (the advanced form declines at once: a `%` is present). -/
+    both settings of ADVANCED_UNITS (the advanced form declines at once: a `%` is present).
+    Since wave 10 `QtyFiller` also admits filler behind a blank of a TEXT value (`{a [- c -] few%pinches}`,
+    `ValFiller`; spelled out as `C17_parse_quantity_filler_in_text_value`), so this theorem became stronger. -/
 theorem C17_parse_quantity_filler_in_unit {α : Type} [Arith α] (qF q : AQty) (hF : QtyFiller qF q) (p : QPad) (outer : BP α)
     (hsp : outer.cs.uws ' ' = true) (hq : q.ok outer.cs = true) (hp : p.ok outer.cs = true)
     (hr : q.val.isRange = true → outer.ext.has Gen.EXT_RANGE_VALUES = true)
@@ -1820,7 +1825,7 @@ theorem C17_exFiller_pad : ∀ t ∈ C17_exFillerTok, bl17Pad t := by
 theorem C17_exCompFiller : CompFiller C17_exCompF C17_exComp :=
   ⟨rfl, FillerIn.ins _ _ _ _ (by simp) rfl C17_exFiller_pad, trivial,
    FillerIn.ins _ _ _ _ (by simp) rfl C17_exFiller_pad,
-   ⟨rfl, rfl, FillerIn.ins _ _ _ _ (by simp) rfl C17_exFiller_pad⟩⟩
+   ⟨rfl, ValFiller.same _, FillerIn.ins _ _ _ _ (by simp) rfl C17_exFiller_pad⟩⟩
 
 example : C17_exComp.wf toyCharSpec ⟨0⟩ = true ∧ (({} : CPad).ok toyCharSpec) = true ∧
     render (spellIngredient C17_exCompF {}) = "@olive [- c -] oil{1%big [- c -] cup}(very [- c -] fine)".toList ∧
@@ -2912,5 +2917,446 @@ example : SameRecipe (α := Rat) (fun c => c = ' ')
   rw [e1, e2] at h
   exact h
 -- ===== end w9c17inline =====
+
+-- ===== w10c17val =====
+/-! ## Wave 10: braces that hold only blanks and block comments (seeded change C17-10), a `DocWF` witness under
+    INLINE_QUANTITIES. -/
+
+/-- **A braces body that consists only of whitespace and block-comment tokens is "no quantity"** — `comp_body`
+    (`src/parser/step.rs`: `quantity_not_empty = tokens.any(|t| !matches!(t.kind, ws | block comment))`).  The
+    parser stands anywhere in ARBITRARY tokens, in front of `name { q } rest`: `name` holds no `{` and no marker
+    `@ # ~`, `q` only whitespace and block comments (`w10bBlank`).  Then `comp_body` returns the body with the name
+    `name`, the span of the braces and `quantity = None`, the cursor behind the `}`, nothing pushed — whatever `q`
+    is, in particular as for `q = []` (`@salt{ [- c -] }` against `@salt{}`; only the END of the brace span and the
+    cursor move with the length of `q`).  Used alike by `ingredient`, `cookware` and `timer`, which all read their body through `comp_body`
+    and branch on `body.quantity` only. -/
+theorem C17_comment_only_braces_is_no_quantity {α : Type} [Arith α] (s : BP α) (A name q rest : List Tok) (ob cb : Tok)
+    (ht : s.toks = A ++ (name ++ ob :: (q ++ cb :: rest))) (hc : s.cur = A.length)
+    (hn : ∀ t ∈ name, (t.kind == .openBrace || isMarker t.kind) = false)
+    (hob : ob.kind = .openBrace) (hcb : cb.kind = .closeBrace)
+    (hq : ∀ t ∈ q, w10bBlank t = true) :
+    compBody s = (some ⟨name, some ⟨ob.start, cb.stop⟩, none⟩,
+      { s with cur := A.length + name.length + 1 + q.length + 1 }) := by
+  rw [compBody_run s A name ob q cb rest ht hc hn hob
+    (fun t ht' h => by have := w10b_blank_noClose q hq t ht'; simp [h] at this) hcb]
+  have : q.any (fun t => !isPadK t) = false := w10b_any_blank q hq
+  rw [this]; rfl
+
+/-- the contrast (so that the statement above is not true of a parser that never reads a quantity): one token
+    between the braces that is neither whitespace nor a block comment, and the body holds the quantity tokens `q` -/
+theorem C17_solid_braces_hold_quantity {α : Type} [Arith α] (s : BP α) (A name q rest : List Tok) (ob cb : Tok)
+    (ht : s.toks = A ++ (name ++ ob :: (q ++ cb :: rest))) (hc : s.cur = A.length)
+    (hn : ∀ t ∈ name, (t.kind == .openBrace || isMarker t.kind) = false)
+    (hob : ob.kind = .openBrace) (hcb : cb.kind = .closeBrace)
+    (hq : ∀ t ∈ q, t.kind ≠ .closeBrace) (hsolid : ∃ t ∈ q, w10bBlank t = false) :
+    compBody s = (some ⟨name, some ⟨ob.start, cb.stop⟩, some q⟩,
+      { s with cur := A.length + name.length + 1 + q.length + 1 }) := by
+  rw [compBody_run s A name ob q cb rest ht hc hn hob hq hcb]
+  have : q.any (fun t => !isPadK t) = true := by
+    obtain ⟨t, ht', h⟩ := hsolid
+    rw [List.any_eq_true]
+    exact ⟨t, ht', by simp only [w10bBlank] at h; simp [isPadK, h]⟩
+  rw [this]; rfl
+
+/-! non-vacuity: the tokens of `@salt{ [- c -] }` (cursor behind the `@`), and of `@salt{ 1 }` -/
+def C17_w10Toks (q : List Tok) : List Tok :=
+  [tk .at ['@']] ++ ([tk .word "salt".toList] ++ tk .openBrace ['{'] :: (q ++ tk .closeBrace ['}'] :: [tk .ws [' ']]))
+example : (compBody (⟨C17_w10Toks [tk .ws [' '], tk .blockComment "[- c -]".toList, tk .ws [' ']], 1, ⟨0⟩, toyCharSpec, #[], none⟩ : BP Rat)).1.map
+      (fun b => (b.name, b.quantity)) = some ([tk .word "salt".toList], none) := by
+  rw [C17_comment_only_braces_is_no_quantity _ [tk .at ['@']] [tk .word "salt".toList]
+    [tk .ws [' '], tk .blockComment "[- c -]".toList, tk .ws [' ']] [tk .ws [' ']] (tk .openBrace ['{']) (tk .closeBrace ['}']) rfl rfl
+    (by decide) rfl rfl (by decide)]
+  rfl
+example : (compBody (⟨C17_w10Toks [tk .ws [' '], tk .int ['1'], tk .ws [' ']], 1, ⟨0⟩, toyCharSpec, #[], none⟩ : BP Rat)).1.map
+      (fun b => (b.name, b.quantity)) = some ([tk .word "salt".toList], some [tk .ws [' '], tk .int ['1'], tk .ws [' ']]) := by
+  rw [C17_solid_braces_hold_quantity _ [tk .at ['@']] [tk .word "salt".toList]
+    [tk .ws [' '], tk .int ['1'], tk .ws [' ']] [tk .ws [' ']] (tk .openBrace ['{']) (tk .closeBrace ['}']) rfl rfl
+    (by decide) rfl rfl (by decide) ⟨tk .int ['1'], by decide, by decide⟩]
+  rfl
+
+/-- **Ingredient: blanks and block comments inside braces that hold no quantity, component level.**  The same
+    abstract ingredient `c` (any modifiers, name, alias, note; with or without quantity) spelled with the padding
+    `p` and with the same padding but `E'` inside its empty braces (`padOK`: whitespace and block comments): both
+    parse, each consuming exactly its tokens, and the events are `EvLoose`-related (equal modifiers, quantity —
+    for `c.qty = none`: none on both sides —, names / aliases / notes with the same `text_trimmed()`). -/
+theorem C17_comment_only_braces_ingredient {α : Type} [Arith α] (c : AComp) (p : CPad) (E' : List Tok) (s' s : BP α)
+    (hcs : s'.cs = s.cs) (hext : s'.ext = s.ext) (hsp : s.cs.uws ' ' = true)
+    (hwf : c.wf s.cs s.ext = true) (hE' : padOK s.cs E' = true) (hp : p.ok s.cs = true)
+    (A' ts' rest' A ts rest : List Tok) (hs' : Spells ts' (spellIngredient c { p with e := E' }))
+    (hs : Spells ts (spellIngredient c p))
+    (ht' : s'.toks = A' ++ (ts' ++ rest')) (ht : s.toks = A ++ (ts ++ rest))
+    (hc' : s'.cur = A'.length) (hc : s.cur = A.length) (hrest' : restOK c rest' = true) (hrest : restOK c rest = true)
+    (hrun' : RunAt (baseOff s'.toks) s'.toks) (hrun : RunAt (baseOff s.toks) s.toks) :
+    ∃ ev' ev : Ev α, ingredientP s' = (some ev', { s' with cur := A'.length + ts'.length }) ∧
+      ingredientP s = (some ev, { s with cur := A.length + ts.length }) ∧ EvLoose s.cs ev' ev := by
+  refine C17_ingredient_filler_in_body c c (CompFiller.refl c) { p with e := E' } p s' s hcs hext hsp hwf ?_ hp
+    A' ts' rest' A ts rest hs' hs ht' ht hc' hc hrest' hrest hrun' hrun
+  simp only [CPad.ok, Bool.and_eq_true] at hp ⊢
+  exact ⟨⟨⟨⟨hp.1.1.1.1, hp.1.1.1.2⟩, hp.1.1.2⟩, hp.1.2⟩, hE'⟩
+
+/-- **Cookware**, as `C17_comment_only_braces_ingredient` -/
+theorem C17_comment_only_braces_cookware {α : Type} [Arith α] (c : AComp) (p : CPad) (E' : List Tok) (s' s : BP α)
+    (hcs : s'.cs = s.cs) (hext : s'.ext = s.ext) (hsp : s.cs.uws ' ' = true)
+    (hwf : c.wfCookware s.cs s.ext = true) (hE' : padOK s.cs E' = true) (hp : p.ok s.cs = true)
+    (A' ts' rest' A ts rest : List Tok) (hs' : Spells ts' (spellCookware c { p with e := E' }))
+    (hs : Spells ts (spellCookware c p))
+    (ht' : s'.toks = A' ++ (ts' ++ rest')) (ht : s.toks = A ++ (ts ++ rest))
+    (hc' : s'.cur = A'.length) (hc : s.cur = A.length) (hrest' : restOK c rest' = true) (hrest : restOK c rest = true)
+    (hrun' : RunAt (baseOff s'.toks) s'.toks) (hrun : RunAt (baseOff s.toks) s.toks) :
+    ∃ ev' ev : Ev α, cookwareP s' = (some ev', { s' with cur := A'.length + ts'.length }) ∧
+      cookwareP s = (some ev, { s with cur := A.length + ts.length }) ∧ EvLoose s.cs ev' ev := by
+  refine C17_cookware_filler_in_body c c (CompFiller.refl c) { p with e := E' } p s' s hcs hext hsp hwf ?_ hp
+    A' ts' rest' A ts rest hs' hs ht' ht hc' hc hrest' hrest hrun' hrun
+  simp only [CPad.ok, Bool.and_eq_true] at hp ⊢
+  exact ⟨⟨⟨⟨hp.1.1.1.1, hp.1.1.1.2⟩, hp.1.1.2⟩, hp.1.2⟩, hE'⟩
+
+/-- **Timer**, as `C17_comment_only_braces_ingredient` (`~rest{ [- c -] }` against `~rest{}`: a timer with a name
+    and no quantity on both sides, no "missing quantity" error appears or disappears) -/
+theorem C17_comment_only_braces_timer {α : Type} [Arith α] (c : ATimer) (p : CPad) (E' : List Tok) (s' s : BP α)
+    (hcs : s'.cs = s.cs) (hext : s'.ext = s.ext) (hsp : s.cs.uws ' ' = true)
+    (hwf : c.wf s.cs s.ext = true) (hE' : padOK s.cs E' = true) (hp : p.ok s.cs = true)
+    (A' ts' rest' A ts rest : List Tok) (hs' : Spells ts' (spellTimer c { p with e := E' }))
+    (hs : Spells ts (spellTimer c p))
+    (ht' : s'.toks = A' ++ (ts' ++ rest')) (ht : s.toks = A ++ (ts ++ rest))
+    (hc' : s'.cur = A'.length) (hc : s.cur = A.length) (hrest' : noParenNext rest' = true) (hrest : noParenNext rest = true)
+    (hrun' : RunAt (baseOff s'.toks) s'.toks) (hrun : RunAt (baseOff s.toks) s.toks) :
+    ∃ ev' ev : Ev α, timerP s' = (some ev', { s' with cur := A'.length + ts'.length }) ∧
+      timerP s = (some ev, { s with cur := A.length + ts.length }) ∧ EvLoose s.cs ev' ev := by
+  refine C17_timer_filler_in_body c c (TimerFiller.refl c) { p with e := E' } p s' s hcs hext hsp hwf ?_ hp
+    A' ts' rest' A ts rest hs' hs ht' ht hc' hc hrest' hrest hrun' hrun
+  simp only [CPad.ok, Bool.and_eq_true] at hp ⊢
+  exact ⟨⟨⟨⟨hp.1.1.1.1, hp.1.1.1.2⟩, hp.1.1.2⟩, hp.1.2⟩, hE'⟩
+
+/-! non-vacuity: `@sea salt{ [- to taste -] }` against `@sea salt{ }`, `~rest{ [- c -] }` against `~rest{}`, sources
+    lexed by the model's lexer; both events carry no quantity -/
+def C17_w10Comp : AComp := { name := [tk .word "sea".toList, tk .ws [' '], tk .word "salt".toList] }
+def C17_w10PadC : List Tok := [tk .ws [' '], tk .blockComment "[- to taste -]".toList, tk .ws [' ']]
+def C17_w10Timer : ATimer := { name := some [tk .word "rest".toList] }
+example : render (spellIngredient C17_w10Comp { e := C17_w10PadC }) = "@sea salt{ [- to taste -] }".toList ∧
+    render (spellIngredient C17_w10Comp { e := [tk .ws [' ']] }) = "@sea salt{ }".toList ∧
+    render (spellTimer C17_w10Timer { e := C17_w10PadC }) = "~rest{ [- to taste -] }".toList := by decide
+
+example : ∃ ev' ev : Ev Rat,
+    (ingredientP (⟨lex toyCharSpec (render (spellIngredient C17_w10Comp { e := C17_w10PadC })), 0, ⟨0⟩, toyCharSpec, #[], none⟩ : BP Rat)).1 = some ev' ∧
+    (ingredientP (⟨lex toyCharSpec (render (spellIngredient C17_w10Comp { e := [tk .ws [' ']] })), 0, ⟨0⟩, toyCharSpec, #[], none⟩ : BP Rat)).1 = some ev ∧
+    EvLoose toyCharSpec ev' ev := by
+  obtain ⟨a1, a2⟩ := rtin_lex_spells toyCharSpec 0 (spellIngredient C17_w10Comp { e := C17_w10PadC }) (by decide)
+  obtain ⟨b1, b2⟩ := rtin_lex_spells toyCharSpec 0 (spellIngredient C17_w10Comp { e := [tk .ws [' ']] }) (by decide)
+  obtain ⟨ev', ev, h1, h2, h3⟩ := C17_comment_only_braces_ingredient (α := Rat) C17_w10Comp { e := [tk .ws [' ']] } C17_w10PadC
+    ⟨lex toyCharSpec (render (spellIngredient C17_w10Comp { e := C17_w10PadC })), 0, ⟨0⟩, toyCharSpec, #[], none⟩
+    ⟨lex toyCharSpec (render (spellIngredient C17_w10Comp { e := [tk .ws [' ']] })), 0, ⟨0⟩, toyCharSpec, #[], none⟩
+    rfl rfl (by decide) (by decide) (by decide) (by decide) [] _ [] [] _ [] a1 b1 (by simp [lex]) (by simp [lex]) rfl rfl
+    (by decide) (by decide) a2.base b2.base
+  exact ⟨ev', ev, by rw [h1], by rw [h2], h3⟩
+
+example : ∃ ev' ev : Ev Rat,
+    (cookwareP (⟨lex toyCharSpec (render (spellCookware C17_w10Comp { e := C17_w10PadC })), 0, ⟨0⟩, toyCharSpec, #[], none⟩ : BP Rat)).1 = some ev' ∧
+    (cookwareP (⟨lex toyCharSpec (render (spellCookware C17_w10Comp {})), 0, ⟨0⟩, toyCharSpec, #[], none⟩ : BP Rat)).1 = some ev ∧
+    EvLoose toyCharSpec ev' ev := by
+  obtain ⟨a1, a2⟩ := rtin_lex_spells toyCharSpec 0 (spellCookware C17_w10Comp { e := C17_w10PadC }) (by decide)
+  obtain ⟨b1, b2⟩ := rtin_lex_spells toyCharSpec 0 (spellCookware C17_w10Comp {}) (by decide)
+  obtain ⟨ev', ev, h1, h2, h3⟩ := C17_comment_only_braces_cookware (α := Rat) C17_w10Comp {} C17_w10PadC
+    ⟨lex toyCharSpec (render (spellCookware C17_w10Comp { e := C17_w10PadC })), 0, ⟨0⟩, toyCharSpec, #[], none⟩
+    ⟨lex toyCharSpec (render (spellCookware C17_w10Comp {})), 0, ⟨0⟩, toyCharSpec, #[], none⟩
+    rfl rfl (by decide) (by decide) (by decide) (by decide) [] _ [] [] _ [] a1 b1 (by simp [lex]) (by simp [lex]) rfl rfl
+    (by decide) (by decide) a2.base b2.base
+  exact ⟨ev', ev, by rw [h1], by rw [h2], h3⟩
+
+example : ∃ ev' ev : Ev Rat,
+    (timerP (⟨lex toyCharSpec (render (spellTimer C17_w10Timer { e := C17_w10PadC })), 0, ⟨0⟩, toyCharSpec, #[], none⟩ : BP Rat)).1 = some ev' ∧
+    (timerP (⟨lex toyCharSpec (render (spellTimer C17_w10Timer {})), 0, ⟨0⟩, toyCharSpec, #[], none⟩ : BP Rat)).1 = some ev ∧
+    EvLoose toyCharSpec ev' ev := by
+  obtain ⟨a1, a2⟩ := rtin_lex_spells toyCharSpec 0 (spellTimer C17_w10Timer { e := C17_w10PadC }) (by decide)
+  obtain ⟨b1, b2⟩ := rtin_lex_spells toyCharSpec 0 (spellTimer C17_w10Timer {}) (by decide)
+  obtain ⟨ev', ev, h1, h2, h3⟩ := C17_comment_only_braces_timer (α := Rat) C17_w10Timer {} C17_w10PadC
+    ⟨lex toyCharSpec (render (spellTimer C17_w10Timer { e := C17_w10PadC })), 0, ⟨0⟩, toyCharSpec, #[], none⟩
+    ⟨lex toyCharSpec (render (spellTimer C17_w10Timer {})), 0, ⟨0⟩, toyCharSpec, #[], none⟩
+    rfl rfl (by decide) (by decide) (by decide) (by decide) [] _ [] [] _ [] a1 b1 (by simp [lex]) (by simp [lex]) rfl rfl
+    (by decide) (by decide) a2.base b2.base
+  exact ⟨ev', ev, by rw [h1], by rw [h2], h3⟩
+
+/-! non-vacuity of the seeded change C17-10 at RECIPE level (through `C17_component_pads_same_recipe`, wave 7: the
+    content of empty braces is padding, `CPad.e`): `Use a #big pan{ [- to taste -] } and ~rest{ [- to taste -] } with
+    @sea salt{ [- to taste -] }⏎` against the same with `{}` three times -/
+def C17_w10BracesDoc (p : CPad) : List (DocItem × List Tok) :=
+  [(.step [.text [tk .word "Use".toList, tk .ws [' '], tk .word "a".toList, tk .ws [' ']],
+           .cookware { name := [tk .word "big".toList, tk .ws [' '], tk .word "pan".toList] } p,
+           .text [tk .ws [' '], tk .word "and".toList, tk .ws [' ']],
+           .timer C17_w10Timer p,
+           .text [tk .ws [' '], tk .word "with".toList, tk .ws [' ']],
+           .ingredient C17_w10Comp p], [tk .newline ['\n']])]
+
+example : render ([] ++ docSpec (C17_w10BracesDoc { e := C17_w10PadC })) =
+      "Use a #big pan{ [- to taste -] } and ~rest{ [- to taste -] } with @sea salt{ [- to taste -] }\n".toList ∧
+    render ([] ++ docSpec (C17_w10BracesDoc {})) = "Use a #big pan{} and ~rest{} with @sea salt{}\n".toList := by decide
+
+theorem C17_w10BracesDoc_wf (p : CPad)
+    (h1 : (∀ d ∈ C17_w10BracesDoc p, d.1.ok C17_toyEnv.cs C17_toyEnv.ext = true) ∧ (∀ d ∈ C17_w10BracesDoc p, d.1.simple = true) ∧
+      sepsOK ((C17_w10BracesDoc p).map (·.2)) = true ∧ WellSpelled C17_toyEnv.cs ([] ++ docSpec (C17_w10BracesDoc p)) ∧
+      (parseFrontmatter C17_toyEnv.cs (render ([] ++ docSpec (C17_w10BracesDoc p)))).isNone = true) :
+    DocWF Rat C17_toyEnv [] (C17_w10BracesDoc p) := by
+  obtain ⟨a, b, c, d, e⟩ := h1
+  refine ⟨by decide, a, b, ?_, ?_, c, d, by simpa using e⟩
+  · intro x hx
+    simp only [C17_w10BracesDoc, List.mem_cons, List.not_mem_nil, or_false] at hx
+    subst hx; trivial
+  · intro x hx
+    simp only [C17_w10BracesDoc, List.mem_cons, List.not_mem_nil, or_false] at hx
+    subst hx
+    intro sg hsg
+    simp only [List.mem_cons, List.not_mem_nil, or_false] at hsg
+    rcases hsg with rfl | rfl | rfl | rfl | rfl | rfl
+    · intro hh; exact absurd hh (by decide)
+    · trivial
+    · intro hh; exact absurd hh (by decide)
+    · intro hh; exact absurd hh (by decide)
+    · intro hh; exact absurd hh (by decide)
+    · trivial
+
+example : SameRecipe (α := Rat) (fun c => c = ' ')
+    (parseRecipe C17_toyEnv (render ([] ++ docSpec (C17_w10BracesDoc { e := C17_w10PadC }))))
+    (parseRecipe C17_toyEnv (render ([] ++ docSpec (C17_w10BracesDoc {})))) :=
+  C17_component_pads_same_recipe _ C17_toyEnv [] [] _ _ (C17_w10BracesDoc_wf _ (by decide)) (C17_w10BracesDoc_wf _ (by decide)) rfl
+
+/-- helper for the non-vacuity examples under INLINE_QUANTITIES (`C17_w9Env`): a document of single-text-run steps
+    whose runs show something and hold no inline quantity is well formed once the decidable conditions hold -/
+theorem C17_w10ExDocWF (doc : List (DocItem × List Tok))
+    (h1 : (∀ d ∈ doc, d.1.ok C17_w9Env.cs C17_w9Env.ext = true) ∧ (∀ d ∈ doc, d.1.simple = true) ∧
+      sepsOK (doc.map (·.2)) = true ∧ WellSpelled C17_w9Env.cs ([] ++ docSpec doc) ∧
+      (parseFrontmatter C17_w9Env.cs (render ([] ++ docSpec doc))).isNone = true)
+    (h2 : ∀ d ∈ doc, ∃ l, d.1 = .step [.text l] ∧ l.flatMap vis ≠ [] ∧
+      findInlineQuantity (α := Rat) C17_w9Env ((l.flatMap vis).length + 1) [] (l.flatMap vis) = none) :
+    DocWF Rat C17_w9Env [] doc := by
+  obtain ⟨a, b, c, d, e⟩ := h1
+  refine ⟨by decide, a, b, ?_, ?_, c, d, by simpa using e⟩
+  · intro x hx
+    obtain ⟨l, hl, _⟩ := h2 x hx
+    rw [hl]; trivial
+  · intro x hx
+    obtain ⟨l, hl, h3, h4⟩ := h2 x hx
+    rw [hl]
+    intro sg hsg
+    simp only [List.mem_cons, List.not_mem_nil, or_false] at hsg
+    subst hsg
+    intro _
+    exact ⟨h3, h4⟩
+
+/-- `take 2 cups⏎` (no unit `cups` in the converter of `C17_w9Env`: the scan finds nothing) -/
+def C17_w10Doc : List (DocItem × List Tok) :=
+  [(.step [.text ([tk .word "take".toList, tk .ws [' ']] ++ [tk .int ['2'], tk .ws [' '], tk .word "cups".toList])],
+    [tk .newline ['\n']])]
+
+theorem C17_w10Doc_wf : DocWF Rat C17_w9Env [] C17_w10Doc :=
+  C17_w10ExDocWF _ (by decide) (by
+    intro d hd
+    simp only [C17_w10Doc, List.mem_cons, List.not_mem_nil, or_false] at hd
+    subst hd
+    exact ⟨_, rfl, by decide, by decide⟩)
+
+/-- **non-vacuity of the wave-9 theorems under INLINE_QUANTITIES**: `take [- c -] 2 cups⏎` against `take 2 cups⏎`
+    under `C17_w9Env` (extension on, unit `g` known): `DocWF` of the transformed document and the same recipe -/
+example : DocWF Rat C17_w9Env [] ([] ++ (DocItem.step ([] ++ SegX.text ([tk .word "take".toList, tk .ws [' ']] ++
+      [tk .blockComment "[- c -]".toList, tk .ws [' ']] ++ [tk .int ['2'], tk .ws [' '], tk .word "cups".toList]) :: []),
+      [tk .newline ['\n']]) :: []) :=
+  C17_insertion_in_text_wellformed_all_ext (α := Rat) C17_w9Env C17_w9_digits C17_w9_blank [] [] [] [tk .newline ['\n']] [] []
+    [tk .word "take".toList, tk .ws [' ']] [tk .blockComment "[- c -]".toList, tk .ws [' ']]
+    [tk .int ['2'], tk .ws [' '], tk .word "cups".toList]
+    (by intro t ht; simp only [List.mem_cons, List.not_mem_nil, or_false] at ht; rcases ht with rfl | rfl <;> rfl)
+    (by decide) (by decide) (Or.inr (Or.inr ⟨"take".toList, ' ', by decide, by decide⟩))
+    C17_w10Doc_wf (by decide)
+
+example : SameRecipe (α := Rat) (fun c => c = ' ')
+    (parseRecipe C17_w9Env "take [- c -] 2 cups\n".toList) (parseRecipe C17_w9Env "take 2 cups\n".toList) := by
+  have h := C17_insertion_in_text_same_recipe (α := Rat) C17_w9Env (fun c => c = ' ')
+    (by intro c hc; simp only [decide_eq_true_eq] at hc; subst hc; decide) C17_w9_digits C17_w9_blank []
+    [] [] [tk .newline ['\n']] [] [] [tk .word "take".toList, tk .ws [' ']]
+    [tk .blockComment "[- c -]".toList, tk .ws [' ']] [tk .int ['2'], tk .ws [' '], tk .word "cups".toList]
+    (by intro t ht; simp only [List.mem_cons, List.not_mem_nil, or_false] at ht; rcases ht with rfl | rfl <;> rfl)
+    (by decide)
+    (by decide) (Or.inr (Or.inr ⟨"take".toList, ' ', by decide, by decide⟩)) (by intro s hs; cases hs)
+    C17_w10Doc_wf (by decide)
+  have e1 : render ([] ++ docSpec ([] ++ (DocItem.step ([] ++ SegX.text ([tk .word "take".toList, tk .ws [' ']] ++
+      [tk .blockComment "[- c -]".toList, tk .ws [' ']] ++ [tk .int ['2'], tk .ws [' '], tk .word "cups".toList]) :: []),
+      [tk .newline ['\n']]) :: [])) = "take [- c -] 2 cups\n".toList := by decide
+  have e2 : render ([] ++ docSpec ([] ++ (DocItem.step ([] ++ SegX.text ([tk .word "take".toList, tk .ws [' ']] ++
+      [tk .int ['2'], tk .ws [' '], tk .word "cups".toList]) :: []), [tk .newline ['\n']]) :: [])) = "take 2 cups\n".toList := by decide
+  rw [e1, e2] at h
+  exact h
+
+/-- … and the hypothesis bites: with the known unit the original is NOT well formed (its text run holds the inline
+    quantity `2 g`), so the theorem says nothing about `take 2 g⏎` -/
+example : ¬ (SegX.text [tk .word "take".toList, tk .ws [' '], tk .int ['2'], tk .ws [' '], tk .word "g".toList]).extOK Rat C17_w9Env := by
+  intro h
+  have := (h (by decide)).2
+  revert this
+  decide
+
+/-- **`parse_quantity` with filler inside a TEXT VALUE** (`{a [- c -] few%pinches}`, `{=a [- c -] few}`): `lF` is the
+    text-value leaf `l` (words and single blanks, not number-like) with block comments / blank whitespace tokens
+    inserted behind one of its blanks (`FillerIn`), the unit may carry filler too.  `parse_quantity` gives the text
+    value `text_trimmed` = the string of the CLEAN leaf, the same lock and unit, no diagnostic, and hands the outer
+    parser back untouched — under both settings of ADVANCED_UNITS (with it and without `%`: the text starts with a
+    word, `advSafe`, so the advanced form declines before and after) and of RANGE_VALUES.  Instance of
+    `C17_parse_quantity_filler_in_unit`, whose relation `QtyFiller` admits such values since wave 10 (`ValFiller`);
+    through `CompFiller` / `TimerFiller` / `DocItemF` the component-level theorems `C17_ingredient/cookware/timer_filler_in_body`
+    and the recipe-level `C17_filler_in_component_bodies_same_recipe` cover text values with filler as well. -/
+theorem C17_parse_quantity_filler_in_text_value {α : Type} [Arith α] (lF l : List Tok) (hFl : FillerIn lF l)
+    (lock : Bool) (uF u : Option (List Tok)) (hU : OptRel FillerIn uF u) (p : QPad) (outer : BP α)
+    (hsp : outer.cs.uws ' ' = true) (hq : ({ lock := lock, val := .text l, unit := u } : AQty).ok outer.cs = true)
+    (hp : p.ok outer.cs = true)
+    (hadv : outer.ext.has Gen.EXT_ADVANCED_UNITS = true → ({ lock := lock, val := .text l, unit := u } : AQty).advSafe = true)
+    (ts : List Tok) (hs : Spells ts (spellQty { lock := lock, val := .text lF, unit := uF } p))
+    (hrun : RunAt (baseOff ts) ts) :
+    ∃ vspan lspan unitT sep,
+      parseQuantity ts outer = (⟨⟨⟨⟨⟨.text (leafText l), vspan⟩, lspan⟩, unitT⟩, tokensSpan ts⟩, sep⟩, outer) ∧
+      lspan.isSome = lock ∧ unitT.map (fun t => t.trimmed outer.cs) = u.map leafText ∧ sep.isSome = u.isSome :=
+  C17_parse_quantity_filler_in_unit { lock := lock, val := .text lF, unit := uF } { lock := lock, val := .text l, unit := u }
+    ⟨rfl, ValFiller.text lF l hFl, hU⟩ p outer hsp hq hp (by intro h; cases h) hadv ts hs hrun
+
+/-! non-vacuity, recipe level: `Add @salt{a [- c -] few%small [- c -] pinches} now⏎` against
+    `Add @salt{a few%small pinches} now⏎` -/
+def C17_w10ValF : AComp :=
+  { name := [tk .word "salt".toList],
+    qty := some { val := .text ([tk .word "a".toList] ++ tk .ws [' '] :: (C17_exFillerTok ++ [tk .word "few".toList])),
+                  unit := some ([tk .word "small".toList] ++ tk .ws [' '] :: (C17_exFillerTok ++ [tk .word "pinches".toList])) } }
+def C17_w10Val : AComp :=
+  { name := [tk .word "salt".toList],
+    qty := some { val := .text ([tk .word "a".toList] ++ tk .ws [' '] :: [tk .word "few".toList]),
+                  unit := some ([tk .word "small".toList] ++ tk .ws [' '] :: [tk .word "pinches".toList]) } }
+theorem C17_w10ValFiller : CompFiller C17_w10ValF C17_w10Val :=
+  ⟨rfl, FillerIn.same _, trivial, trivial,
+   ⟨rfl, ValFiller.text _ _ (FillerIn.ins _ _ _ _ (by simp) rfl C17_exFiller_pad),
+    FillerIn.ins _ _ _ _ (by simp) rfl C17_exFiller_pad⟩⟩
+
+def C17_w10DocValF : List (DocItemF × List Tok) :=
+  [(.stepF [.x (.text [tk .word "Add".toList, tk .ws [' ']]), .ingredient C17_w10ValF C17_w10Val {},
+            .x (.text [tk .ws [' '], tk .word "now".toList])], [tk .newline ['\n']])]
+def C17_w10DocVal : List (DocItem × List Tok) :=
+  [(.step [.text [tk .word "Add".toList, tk .ws [' ']], .ingredient C17_w10Val {},
+           .text [tk .ws [' '], tk .word "now".toList]], [tk .newline ['\n']])]
+
+example : render ([] ++ docSpecF C17_w10DocValF) = "Add @salt{a [- c -] few%small [- c -] pinches} now\n".toList ∧
+    render ([] ++ docSpec C17_w10DocVal) = "Add @salt{a few%small pinches} now\n".toList := by decide
+
+theorem C17_w10DocVal_wf : DocWF Rat C17_toyEnv [] C17_w10DocVal := by
+  have h1 : (∀ d ∈ C17_w10DocVal, d.1.ok C17_toyEnv.cs C17_toyEnv.ext = true) ∧ (∀ d ∈ C17_w10DocVal, d.1.simple = true) ∧
+      sepsOK (C17_w10DocVal.map (·.2)) = true ∧ WellSpelled C17_toyEnv.cs ([] ++ docSpec C17_w10DocVal) ∧
+      (parseFrontmatter C17_toyEnv.cs (render ([] ++ docSpec C17_w10DocVal))).isNone = true := by decide
+  obtain ⟨a, b, c, d, e⟩ := h1
+  refine ⟨by decide, a, b, ?_, ?_, c, d, by simpa using e⟩
+  · intro x hx
+    simp only [C17_w10DocVal, List.mem_cons, List.not_mem_nil, or_false] at hx
+    subst hx; trivial
+  · intro x hx
+    simp only [C17_w10DocVal, List.mem_cons, List.not_mem_nil, or_false] at hx
+    subst hx
+    intro sg hsg
+    simp only [List.mem_cons, List.not_mem_nil, or_false] at hsg
+    rcases hsg with rfl | rfl | rfl
+    · intro hh; exact absurd hh (by decide)
+    · trivial
+    · intro hh; exact absurd hh (by decide)
+
+example : SameRecipe (α := Rat) (fun c => c = ' ')
+    (parseRecipe C17_toyEnv (render ([] ++ docSpecF C17_w10DocValF)))
+    (parseRecipe C17_toyEnv (render ([] ++ docSpec C17_w10DocVal))) :=
+  C17_filler_in_component_bodies_same_recipe _ C17_toyEnv (by decide) [] [] C17_w10DocValF C17_w10DocVal C17_w10DocVal_wf rfl
+    (by decide)
+    (by
+      intro d hd
+      simp only [C17_w10DocValF, List.mem_cons, List.not_mem_nil, or_false] at hd
+      subst hd
+      refine ⟨⟨show SegX.ok _ _ _ = true by decide, by decide, ⟨C17_w10ValFiller, by decide, by decide⟩, by decide,
+        show SegX.ok _ _ _ = true by decide, by decide, trivial⟩, by decide, by decide⟩)
+    (by decide) (by decide)
+    (by
+      have : (parseFrontmatter C17_toyEnv.cs (render ([] ++ docSpecF C17_w10DocValF))).isNone = true := by decide
+      simpa using this)
+
+/-! non-vacuity, quantity level, ADVANCED_UNITS on, no `%`: the tokens of `=a [- c -] few` as the model's lexer gives them -/
+example : ∃ vspan lspan unitT sep,
+    parseQuantity (lex toyCharSpec "=a [- c -] few".toList) (⟨[], 0, ⟨Gen.EXT_ADVANCED_UNITS⟩, toyCharSpec, #[], none⟩ : BP Rat) =
+      (⟨⟨⟨⟨⟨.text "a few".toList, vspan⟩, lspan⟩, unitT⟩, tokensSpan (lex toyCharSpec "=a [- c -] few".toList)⟩, sep⟩,
+        ⟨[], 0, ⟨Gen.EXT_ADVANCED_UNITS⟩, toyCharSpec, #[], none⟩) ∧
+    lspan.isSome = true ∧ unitT.map (fun t => t.trimmed toyCharSpec) = none ∧ sep.isSome = false := by
+  obtain ⟨a1, a2⟩ := rtin_lex_spells toyCharSpec 0
+    (spellQty { lock := true, val := .text ([tk .word "a".toList] ++ tk .ws [' '] :: (C17_exFillerTok ++ [tk .word "few".toList])) } {})
+    (by decide)
+  have e : render (spellQty { lock := true, val := .text ([tk .word "a".toList] ++ tk .ws [' '] :: (C17_exFillerTok ++ [tk .word "few".toList])) } {})
+      = "=a [- c -] few".toList := by decide
+  rw [e] at a1 a2
+  exact C17_parse_quantity_filler_in_text_value (α := Rat) _ ([tk .word "a".toList] ++ tk .ws [' '] :: [tk .word "few".toList])
+    (FillerIn.ins _ _ _ _ (by simp) rfl C17_exFiller_pad) true none none trivial {}
+    ⟨[], 0, ⟨Gen.EXT_ADVANCED_UNITS⟩, toyCharSpec, #[], none⟩ (by decide) (by decide) (by decide) (by intro _; decide)
+    (lex toyCharSpec "=a [- c -] few".toList) a1 a2.base
+
+/-! non-vacuity of the multi-insertion constructor `FillerIn.more` (wave 10), recipe level: TWO comments in one name
+    and two in one text value: `Add @extra [- c -] virgin [- c -] oil{a [- c -] very [- c -] few%cups} now⏎` against
+    `Add @extra virgin oil{a very few%cups} now⏎` -/
+def C17_w10Sp : Tok := tk .ws [' ']
+def C17_w10TwoF : AComp :=
+  { name := [tk .word "extra".toList, C17_w10Sp] ++ C17_exFillerTok ++ [tk .word "virgin".toList] ++ C17_w10Sp :: (C17_exFillerTok ++ [tk .word "oil".toList]),
+    qty := some { val := .text ([tk .word "a".toList, C17_w10Sp] ++ C17_exFillerTok ++ [tk .word "very".toList] ++ C17_w10Sp :: (C17_exFillerTok ++ [tk .word "few".toList])),
+                  unit := some [tk .word "cups".toList] } }
+def C17_w10Two : AComp :=
+  { name := [tk .word "extra".toList, C17_w10Sp, tk .word "virgin".toList, C17_w10Sp, tk .word "oil".toList],
+    qty := some { val := .text [tk .word "a".toList, C17_w10Sp, tk .word "very".toList, C17_w10Sp, tk .word "few".toList],
+                  unit := some [tk .word "cups".toList] } }
+
+theorem C17_w10TwoFillerIn (a b c : Tok) :
+    FillerIn ([a, C17_w10Sp] ++ C17_exFillerTok ++ [b] ++ C17_w10Sp :: (C17_exFillerTok ++ [c])) [a, C17_w10Sp, b, C17_w10Sp, c] :=
+  FillerIn.more ([a, C17_w10Sp] ++ C17_exFillerTok ++ [b]) C17_w10Sp C17_exFillerTok [c] _
+    (FillerIn.ins [a] C17_w10Sp C17_exFillerTok [b, C17_w10Sp, c] (by simp) rfl C17_exFiller_pad)
+    (by simp) rfl C17_exFiller_pad
+
+theorem C17_w10TwoFiller : CompFiller C17_w10TwoF C17_w10Two :=
+  ⟨rfl, C17_w10TwoFillerIn _ _ _, trivial, trivial, ⟨rfl, ValFiller.text _ _ (C17_w10TwoFillerIn _ _ _), FillerIn.same _⟩⟩
+
+def C17_w10DocTwoF : List (DocItemF × List Tok) :=
+  [(.stepF [.x (.text [tk .word "Add".toList, tk .ws [' ']]), .ingredient C17_w10TwoF C17_w10Two {},
+            .x (.text [tk .ws [' '], tk .word "now".toList])], [tk .newline ['\n']])]
+def C17_w10DocTwo : List (DocItem × List Tok) :=
+  [(.step [.text [tk .word "Add".toList, tk .ws [' ']], .ingredient C17_w10Two {},
+           .text [tk .ws [' '], tk .word "now".toList]], [tk .newline ['\n']])]
+
+example : render ([] ++ docSpecF C17_w10DocTwoF) =
+      "Add @extra [- c -] virgin [- c -] oil{a [- c -] very [- c -] few%cups} now\n".toList ∧
+    render ([] ++ docSpec C17_w10DocTwo) = "Add @extra virgin oil{a very few%cups} now\n".toList := by decide
+
+theorem C17_w10DocTwo_wf : DocWF Rat C17_toyEnv [] C17_w10DocTwo := by
+  have h1 : (∀ d ∈ C17_w10DocTwo, d.1.ok C17_toyEnv.cs C17_toyEnv.ext = true) ∧ (∀ d ∈ C17_w10DocTwo, d.1.simple = true) ∧
+      sepsOK (C17_w10DocTwo.map (·.2)) = true ∧ WellSpelled C17_toyEnv.cs ([] ++ docSpec C17_w10DocTwo) ∧
+      (parseFrontmatter C17_toyEnv.cs (render ([] ++ docSpec C17_w10DocTwo))).isNone = true := by decide
+  obtain ⟨a, b, c, d, e⟩ := h1
+  refine ⟨by decide, a, b, ?_, ?_, c, d, by simpa using e⟩
+  · intro x hx
+    simp only [C17_w10DocTwo, List.mem_cons, List.not_mem_nil, or_false] at hx
+    subst hx; trivial
+  · intro x hx
+    simp only [C17_w10DocTwo, List.mem_cons, List.not_mem_nil, or_false] at hx
+    subst hx
+    intro sg hsg
+    simp only [List.mem_cons, List.not_mem_nil, or_false] at hsg
+    rcases hsg with rfl | rfl | rfl
+    · intro hh; exact absurd hh (by decide)
+    · trivial
+    · intro hh; exact absurd hh (by decide)
+
+example : SameRecipe (α := Rat) (fun c => c = ' ')
+    (parseRecipe C17_toyEnv (render ([] ++ docSpecF C17_w10DocTwoF)))
+    (parseRecipe C17_toyEnv (render ([] ++ docSpec C17_w10DocTwo))) :=
+  C17_filler_in_component_bodies_same_recipe _ C17_toyEnv (by decide) [] [] C17_w10DocTwoF C17_w10DocTwo C17_w10DocTwo_wf rfl
+    (by decide)
+    (by
+      intro d hd
+      simp only [C17_w10DocTwoF, List.mem_cons, List.not_mem_nil, or_false] at hd
+      subst hd
+      refine ⟨⟨show SegX.ok _ _ _ = true by decide, by decide, ⟨C17_w10TwoFiller, by decide, by decide⟩, by decide,
+        show SegX.ok _ _ _ = true by decide, by decide, trivial⟩, by decide, by decide⟩)
+    (by decide) (by decide)
+    (by
+      have : (parseFrontmatter C17_toyEnv.cs (render ([] ++ docSpecF C17_w10DocTwoF))).isNone = true := by decide
+      simpa using this)
+-- ===== end w10c17val =====
 
 end Cook
